@@ -227,7 +227,7 @@ func init() {
 		s := schedC03(c)
 		o := prog.DefaultOpts()
 		o.Wide = c.pick(40, 300)
-		g := genPart(c, "C03", c.pick(40, 400), c.pick(40, 400), o, 1, "ok,fault,wide,widegx,goexit,nest", c.pick(5, 12), false,
+		g := genPart(c, "C03", c.pick(40, 400), c.pick(40, 400), o, 1, "ok,fault,wide,widegx,goexit,nest,slowstate", c.pick(5, 12), false,
 			"at least two user functions were in flight at once (exact in-flight counter in the stubs vs. the limit the directive was given, or max(GOMAXPROCS,4)); 'wide' programs: a Parallel or Flow of 6..25 independent functions, mostly without cff.Concurrency, every function held until as many are in flight as the limit allows plus 3 ms; 'widegx': the same after a third of the functions killed their goroutine with runtime.Goexit")
 		both(c, s, g)
 	}
